@@ -34,8 +34,14 @@ func c04Run(kinds []string) any {
 	r.Eng.Put([]byte("b"), []byte("0"))
 	rec := &recorder{}
 	var ts []*vsched.Thread
+	// "rw-staged": the writer has begun and written, and is held until all other clients have been started - the
+	// state "a read-write transaction is open" is then the starting point of every explored interleaving
+	staged, release := make(chan struct{}), make(chan struct{})
 	for ci, kind := range kinds {
 		ci, kind := ci+1, kind
+		if ci == 2 && kinds[0] == "rw-staged" {
+			vsched.Recv(staged)
+		}
 		ts = append(ts, vsched.GoNamed(fmt.Sprintf("X%d", ci), func() {
 			rec.do(ci, "tx", "", "", func(o *kvOp) {
 				tx, err := r.Eng.BeginTransaction(kind == "ro")
@@ -86,7 +92,11 @@ func c04Run(kinds []string) any {
 						obs.Local = fmt.Sprintf("own-write-invisible\ntransaction wrote a=%s and then read a=%s", na, got)
 					}
 					o.Writes = [][2]string{{"a", na}, {"b", fmt.Sprintf("x%d", ci)}}
-					if kind == "rw-commit" {
+					if kind == "rw-staged" {
+						vsched.Close(staged)
+						vsched.Recv(release)
+					}
+					if kind == "rw-commit" || kind == "rw-staged" {
 						if err := tx.Commit(); err != nil {
 							o.Err = "commit: " + err.Error()
 						}
@@ -99,6 +109,9 @@ func c04Run(kinds []string) any {
 				}
 			})
 		}))
+	}
+	if kinds[0] == "rw-staged" {
+		vsched.Close(release)
 	}
 	for _, t := range ts {
 		vsched.Join(t)
@@ -150,6 +163,7 @@ var c04Defs = map[string][]string{
 	"rw-rw-ro":        {"rw-commit", "rw-commit", "ro"},
 	"rw-ro-ro":        {"rw-commit", "ro", "ro"},
 	"rw-rollback-ro":  {"rw-commit", "rw-rollback", "ro"},
+	"open-rw-ro-ro":   {"rw-staged", "ro", "ro"},
 }
 
 // own view, sequentially: every transaction body of <=3 (4) operations over 2 keys on 3 pre-states (nothing, both keys
@@ -219,7 +233,7 @@ func init() {
 	fw.Register(&fw.Check{
 		ID:    "C04",
 		Level: "model_checking",
-		Rule: "stateless exploration of the real engine: 2-3 transaction threads from {read a, write a:=read+1, write b, commit | rollback} and {read-only: read a, read b, read a again, scan}; all interleavings up to the deviation bound (2 for 2 threads, 1 for 3 threads; thorough +1) with happens-before caching. Oracle: porcupine strict serializability over transaction-level operations spanning begin..commit (reads with observed values, write set), own writes visible inside the transaction, read-only transactions repeatable and scan = reads; a final read-only transaction closes the history. Non-trivial = executions with a cross-thread conflict. Own view, sequentially: every transaction body of <=3 (4 thorough) put/delete operations over 2 keys (repeated keys included) on 3 pre-states x {rollback, commit}: inside the transaction every point read of a touched key and a full scan must equal the committed state with the transaction's own operations laid over it, last operation on a key winning",
+		Rule: "stateless exploration of the real engine: 2-3 transaction threads from {read a, write a:=read+1, write b, commit | rollback} and {read-only: read a, read b, read a again, scan}; all interleavings up to the deviation bound (2 for 2 threads, 1 for 3 threads; thorough +1) with happens-before caching. Oracle: porcupine strict serializability over transaction-level operations spanning begin..commit (reads with observed values, write set), own writes visible inside the transaction, read-only transactions repeatable and scan = reads; a final read-only transaction closes the history. Scenario open-rw-ro-ro starts every interleaving from the state 'a read-write transaction is open and has written' with two read-only clients arriving. Non-trivial = executions with a cross-thread conflict. Own view, sequentially: every transaction body of <=3 (4 thorough) put/delete operations over 2 keys (repeated keys included) on 3 pre-states x {rollback, commit}: inside the transaction every point read of a touched key and a full scan must equal the committed state with the transaction's own operations laid over it, last operation on a key winning",
 		Assumptions: []string{"non-transactional writes are excluded as the statement excludes them", "SC interleavings of visible operations"},
 		Units: func(tier string) []string {
 			var us []string
